@@ -10,6 +10,8 @@ var textAlphabet = [][]byte{
 	[]byte("a"), []byte("b"), []byte("x"), []byte("0"), []byte(" "), []byte("\n"), []byte("\n\n"),
 	[]byte(startS), []byte(endS), []byte("×"), []byte(redS), []byte("?"), []byte("%"), []byte("\""), []byte("\\"),
 	[]byte("é"), []byte("世"), []byte("😀"), []byte("\t"), []byte("-"),
+	// marker look-alikes: runes that share trailing bytes with a marker
+	[]byte("〺"), []byte("〹"), []byte("်"), []byte("္"), []byte("º"), []byte("¹"),
 }
 
 // genText draws a valid-UTF-8 payload over the text alphabet, with markers
@@ -22,17 +24,52 @@ func genBytes(rt *rapid.T, label string, maxTok int) []byte {
 	return genOver(rt, label, maxTok, byteAlphabet)
 }
 
+// sizeThresholds: payload sizes around which size-dependent code paths
+// (initial capacity, growth steps, "large write" shortcuts, the 64 KiB
+// pooling limit) may switch.
+var sizeThresholds = []int{60, 64, 128, 256, 512, 1020, 1024, 2048, 4090, 4096, 8192, 16384, 32768, 65530, 65536, 70000}
+
 func genOver(rt *rapid.T, label string, maxTok int, alpha [][]byte) []byte {
 	n := rapid.IntRange(0, maxTok).Draw(rt, label+"_n")
-	// now and then a long payload: crosses the buffers' initial 64-byte
-	// capacity and the growth steps after it
-	if rapid.IntRange(0, 29).Draw(rt, label+"_long") == 0 {
-		n = rapid.IntRange(25, 140).Draw(rt, label+"_nlong")
-	}
+	mode := rapid.IntRange(0, 399).Draw(rt, label+"_long")
 	out := []byte{}
+	tok := func() []byte { return alpha[rapid.IntRange(0, len(alpha)-1).Draw(rt, label+"_t")] }
+	switch {
+	case mode <= 12:
+		// a long payload of random tokens: crosses the buffers' initial
+		// 64-byte capacity and the growth steps after it
+		n = rapid.IntRange(25, 140).Draw(rt, label+"_nlong")
+	case mode <= 25:
+		// runs of plain bytes of arbitrary length, each followed by a special
+		// token: a special byte at every offset modulo any window size
+		nr := rapid.IntRange(1, 5).Draw(rt, label+"_nruns")
+		for i := 0; i < nr; i++ {
+			l := rapid.IntRange(0, 160).Draw(rt, label+"_run")
+			for j := 0; j < l; j++ {
+				out = append(out, byte('a'+j%7))
+			}
+			out = append(out, tok()...)
+		}
+		return out
+	case mode == 26:
+		// a huge payload: filler up to a size threshold, then a few tokens
+		// (the interesting bytes sit right at the threshold), then a tail
+		head := rapid.IntRange(0, 3).Draw(rt, label+"_hh")
+		for i := 0; i < head; i++ {
+			out = append(out, tok()...)
+		}
+		size := sizeThresholds[rapid.IntRange(0, len(sizeThresholds)-1).Draw(rt, label+"_size")] + rapid.IntRange(-3, 3).Draw(rt, label+"_sd")
+		for len(out) < size {
+			out = append(out, byte('a'+len(out)%5))
+		}
+		tail := rapid.IntRange(0, 4).Draw(rt, label+"_ht")
+		for i := 0; i < tail; i++ {
+			out = append(out, tok()...)
+		}
+		return out
+	}
 	for i := 0; i < n; i++ {
-		k := rapid.IntRange(0, len(alpha)-1).Draw(rt, label+"_t")
-		out = append(out, alpha[k]...)
+		out = append(out, tok()...)
 	}
 	return out
 }
@@ -166,7 +203,7 @@ func genOpOfKind(rt *rapid.T, cfg *opConfig, k string) *Op {
 // genSimpleFormat draws a format string with about nargs directives.
 func genSimpleFormat(rt *rapid.T, label string, nargs int, bytesAlpha bool) []byte {
 	var out []byte
-	verbs := "vsdqxXvvs"
+	verbs := "vsdqxXvvsvsvw"
 	lit := func() {
 		if bytesAlpha {
 			out = append(out, genBytes(rt, label+"_l", 2)...)
